@@ -239,7 +239,7 @@ def strat_genbank(draw, tier="quick"):
 
 
 @st.composite
-def _one_record(draw, tag, max_genes=4):
+def _one_record(draw, tag, max_genes=4, isoforms=True):
     ng = draw(st.integers(1, max_genes))
     genes = []
     cursor = draw(st.integers(0, 4))
@@ -247,7 +247,7 @@ def _one_record(draw, tag, max_genes=4):
         strand = draw(st.sampled_from(["+", "-"]))
         coding = draw(st.sampled_from([True, True, False]))
         # mostly one transcript per gene (the re-parse clauses need that, see assumptions); isoform sets for the writer clauses
-        ntx = draw(st.sampled_from([1, 1, 1, 2, 3]))
+        ntx = draw(st.sampled_from([1, 1, 1, 2, 3])) if isoforms else 1
         txs = []
         for j in range(ntx):
             t = draw(S.transcript_spec(max_exons=3, max_len=9, strand=strand, coding=coding if ntx == 1 else draw(st.sampled_from([coding, coding, not coding])), zero_gap_cds=False, frameshift_prob=0, start_min=cursor, start_max=2))
